@@ -552,7 +552,7 @@ def hostile_json(rng, texts, thorough):
            b'"' + b'x' * 5000 + b'"', b'"\xff\xfe\x80"', b'"\xf0\x9f"', b'\xef\xbb\xbf1', b'[' * 999 + b']' * 999, b'[' * 1000 + b']' * 1000, b'[' * 1001 + b']' * 1001,
            b'[' * 100000, b'{"a":' * 100000, b'[' * 100000 + b']' * 100000, b'[{"k":' * 50000, b' ' * 100000 + b'1', b'\t\n\r\x0b\x0c [1]', b'[1]garbage', b'"a\x00b"', b'"\\u0000"']
     for t in texts:
-        for _ in range(2 if not thorough else 10):
+        for _ in range(2 if not thorough else 4):
             out.append(mutate(rng, t, b'[]{}",:\\u0123456789dDeEaAfFntr -+.'))
     return out
 
@@ -582,6 +582,13 @@ def check_json(ctx, d, exe, dasan):
         ctx.count(1, key=("json", jwire(v)), nontrivial=not isinstance(v, str))
         assert w.startswith("S "), w
         texts.append(unhex(w[2:]))
+        # standing oracle for "the writer emits valid JSON": Python's RFC 8259 parser must read the (model = implementation) text back to v
+        try:
+            okp = py_parse_json(unhex(w[2:]).decode("ascii")) == py_json_text(v)
+        except Exception:
+            okp = False
+        if not okp:
+            ctx.violation("json:writer-text-not-valid-json", input=jwire(v)[:2000], text=w[2:][:2000], observed="Python json.loads rejects the text or reads another value")
         want = "(%s %s)" % (mx(w[2:]), "V" + e[2:])
         wantb = "(%s |%s|)" % (mx(w[2:]), "V" + e[2:])
         if i not in (want, wantb):
@@ -631,6 +638,20 @@ def check_json(ctx, d, exe, dasan):
     ctx.sample(dict(kind="json-hostile", input=hexs(host[2]), model=mo[2], impl=io[2]))
 
 
+# ------------------------------------------------------------------------------------------ corpus (run first)
+def check_corpus(ctx, d):
+    import json as pj
+    path = os.path.join(os.path.dirname(__file__), "..", "corpus", "C19", "regressions.jsonl")
+    cases = [pj.loads(l) for l in open(path) if l.strip()]
+    io = scm.run_cases(d, [c["expr"] for c in cases], prelude_extra=PRELUDE, imports=IMPORTS, timeout=120)
+    for c, i in zip(cases, io):
+        ctx.count(1, key=("corpus", c["name"]), nontrivial=True)
+        ok = (i is not None and i.startswith("ERR")) if c["expect"] == "ERR" else i == c["expect"]
+        if not ok:
+            ctx.violation("corpus:" + c["name"], input=c["expr"], expected=c["expect"], observed=i,
+                          replay="echo '(import (scheme base) (scheme write) (scheme bytevector) (chibi json) (chibi base64) (chibi quoted-printable)) (write %s)' | chibi-scheme /dev/stdin" % c["expr"].replace("'", "'\\''"))
+
+
 def run(ctx):
     ctx.cov["rule"] = ("byte strings of every length 0-100 then seeded lengths up to 4096 (all classes mod 3 and 4, all 256 byte values, "
                        "text-like and run-heavy mixes) through each encoder and decoder: implementation output = extracted model output byte for byte "
@@ -644,6 +665,7 @@ def run(ctx):
     if exe is None:
         return
     import time
+    check_corpus(ctx, d)
     strings = byte_strings(ctx.rng, ctx.thorough)
     t0 = time.time(); check_base64(ctx, d, exe, strings); t1 = time.time()
     check_qp(ctx, d, exe, strings); t2 = time.time()
@@ -652,5 +674,9 @@ def run(ctx):
     dasan = ctx.build("asan"); t4 = time.time()
     check_json(ctx, d, exe, dasan); t5 = time.time()
     ctx.note("wall seconds: base64 %.1f, qp %.1f, accessors %.1f, asan build %.1f, json %.1f" % (t1 - t0, t2 - t1, t3 - t2, t4 - t3, t5 - t4))
-    ctx.assume("floating-point accessors (ieee-single/double), SRFI 160 uniform vectors, CSV and the streaming port variants of the codecs are outside this check")
-    ctx.trust("byte reversal stands for the sexp_swap_* bit arithmetic of bytevector.stub; utf8->string/string->utf8 (C12) carry the string variants of the codecs")
+    ctx.assume("floating-point accessors (ieee-single/double), SRFI 160 uniform vectors, CSV, mini-floats and the streaming/port and *-header variants of the codecs are outside this check; JSON floats are compared by class only")
+    ctx.assume("json_roundtrip carries the explicit fuel premise need v <= fuel; that the library-level fuel 2*len+2 always suffices is observed (no FUEL outcome), not proved")
+    ctx.assume("indices >= 2^64 given to the stub accessors are reduced mod 2^64 by sexp_sint_value before the bounds assertion (chibi-ffi convention); not exercised")
+    ctx.trust("byte reversal stands for the sexp_swap_* bit arithmetic of bytevector.stub; utf8->string/string->utf8 (C12) carry the string variants of the codecs; "
+              "the classification of non-ASCII characters by uri-safe-char? is taken from the implementation (a free parameter of uri_roundtrip)")
+    ctx.trust("Python base64/quopri/json/int.from_bytes are used only to judge a model/implementation disagreement and to re-parse the JSON writer's text")
